@@ -66,6 +66,40 @@ def judge(t, wrap):
     return None
 
 
+def judge_group(t, part, val):
+    """literal text t inside an OPTIONAL GROUP around a part: `MAJOR[<t>PART<t>]`.  With the group present the pattern finds exactly `12<t>val<t>`;
+    when a character of the literal text is missing or changed, the group does not take part and only the `12` before it is found."""
+    from bumpver import v2patterns
+    import re
+    if not t or any(c.isdigit() for c in t) or (part in ("TAG", "PYTAG") and (t[:1].isalpha() or t[-1:].isalpha())):
+        return None
+    pat = to_pattern(t)
+    if part == "MAJOR":
+        part = "MINOR"                  # a field occurs once per pattern
+    pat_full = "MAJOR[" + pat + part + pat + "]"
+    base, text = "12", "12" + t + val + t
+    try:
+        rx = v2patterns.compile_pattern(pat_full).regexp
+    except re.error as ex:
+        return "pattern %r does not compile: %s" % (pat_full, ex)
+    for l in [text, "xx " + text + " yy"]:
+        m = rx.search(l)
+        if m is None or m.group(0) != text:
+            return "pattern %r does not find its own text in %r (found %r)" % (pat_full, l, m.group(0) if m else None)
+    m = rx.search("xx " + base + " yy")
+    if m is None or m.group(0) != base:
+        return "pattern %r does not find %r (optional group left out) in a line containing it (found %r)" % (pat_full, base, m.group(0) if m else None)
+    for i in list(range(len(base), len(base) + len(t))) + list(range(len(base) + len(t) + len(val), len(text))):
+        for l in (text[:i] + text[i + 1:], text[:i] + ("#" if text[i] != "#" else "%") + text[i + 1:]):
+            if text in l:
+                continue
+            m = rx.search(l)
+            # (when the first character of the text is missing, the digits of the part's value join those of MAJOR: still only digits)
+            if m is not None and not m.group(0).isdigit():
+                return "pattern %r matches %r in line %r: the literal text %r of the optional group is not there" % (pat_full, m.group(0), l, t)
+    return None
+
+
 def run(chk, driver, tier):
     rng = chk.rng
     known = {f["id"]: f for f in load_known_findings("C07") if f.get("status") == "open"}
@@ -103,6 +137,10 @@ def run(chk, driver, tier):
         if v and reg in known and reg not in seen:
             seen[reg] = t
         chk.oracle_case({"literal": t, "wrap": wrap}, v, reg if reg in known else None)
+        if wrap and len(t) <= 12 and "^" not in t and "$" not in t:
+            # the same literal text inside an optional group around the part (escaped brackets inside a group included)
+            chk.count("in_optional_group")
+            chk.oracle_case({"literal": t, "group": wrap}, judge_group(t, wrap[0], wrap[1]), reg if reg in known else None)
         if rng.random() < (0.02 if len(lits) > 50000 else 0.2):
             ops.append({"op": "compile_str", "pattern": to_pattern(t)})
             ops.append({"op": "compile_search", "pattern": to_pattern(t), "line": "xx " + t + " yy"})
@@ -143,6 +181,8 @@ def search(chk, driver, tier):
 
 def replay(payload):
     c = payload["case"]
+    if "group" in c:
+        return judge_group(c["literal"], c["group"][0], c["group"][1])
     if "literal" in c:
         return judge(c["literal"], c.get("wrap", False))
     return None
